@@ -590,7 +590,7 @@ pub fn bfs<M: Canon>(
     let mut seen: HashSet<u128> = HashSet::new();
     let s0 = m.init(w, init);
     seen.insert(fp128(&m.canon(&s0)));
-    let mut frontier: Vec<(M::S, Vec<u8>)> = vec![(s0, Vec::new())];
+    let mut frontier: Vec<(M::S, Vec<u16>)> = vec![(s0, Vec::new())];
     let mut res = BfsResult {
         states: 1,
         transitions: 0,
@@ -604,9 +604,9 @@ pub fn bfs<M: Canon>(
         levels: vec![1],
     };
     let ne = m.n_events();
-    assert!(ne < 256);
+    assert!(ne < 65536);
     'outer: for depth in 0..max_depth {
-        let mut next: Vec<(M::S, Vec<u8>)> = Vec::new();
+        let mut next: Vec<(M::S, Vec<u16>)> = Vec::new();
         for (s, path) in frontier.iter() {
             for e in 0..ne {
                 if !m.enabled(s, e) {
@@ -615,7 +615,7 @@ pub fn bfs<M: Canon>(
                 let mut s2 = s.clone();
                 res.transitions += 1;
                 let mut p2 = path.clone();
-                p2.push(e as u8);
+                p2.push(e as u16);
                 match do_step(m, w, &mut s2, e) {
                     Ok(()) => {
                         let k = fp128(&m.canon(&s2));
@@ -652,6 +652,133 @@ pub fn bfs<M: Canon>(
         }
         frontier = next;
     }
+    res.wall_s = t0.elapsed().as_secs_f64();
+    res
+}
+
+/// Level-synchronous parallel BFS for models whose states can cross threads
+/// (pure-core models). Same result set as `bfs`; each thread owns its `M::W`.
+pub fn bfs_par<M: Canon>(
+    m: &M,
+    init: usize,
+    max_depth: usize,
+    max_states: usize,
+    wall: Duration,
+    threads: usize,
+) -> BfsResult
+where
+    M::S: Send + Sync,
+{
+    let t0 = Instant::now();
+    let mut seen: HashSet<u128> = HashSet::new();
+    let s0 = {
+        let mut w = m.worker();
+        m.init(&mut w, init)
+    };
+    seen.insert(fp128(&m.canon(&s0)));
+    let mut frontier: Vec<(M::S, Vec<u16>)> = vec![(s0, Vec::new())];
+    let mut res = BfsResult {
+        states: 1,
+        transitions: 0,
+        depth_reached: 0,
+        frontier_empty: false,
+        cap_hit: false,
+        fails: Vec::new(),
+        fail_counts: HashMap::new(),
+        samples: Vec::new(),
+        wall_s: 0.0,
+        levels: vec![1],
+    };
+    let ne = m.n_events();
+    assert!(ne < 65536);
+    for depth in 0..max_depth {
+        let nt = threads.max(1).min(frontier.len().max(1));
+        let chunk = frontier.len().div_ceil(nt);
+        type Out<S> = (
+            Vec<(u128, S, Vec<u16>)>,
+            u64,
+            Vec<(Vec<usize>, Fail)>,
+            HashMap<String, u64>,
+        );
+        let seen_ref = &seen;
+        let frontier_ref = &frontier;
+        let outs: Vec<Out<M::S>> = par_map(nt, nt, |ti| {
+            let mut w = m.worker();
+            let mut local_seen: HashSet<u128> = HashSet::new();
+            let mut out = Vec::new();
+            let mut trans = 0u64;
+            let mut fails: Vec<(Vec<usize>, Fail)> = Vec::new();
+            let mut fc: HashMap<String, u64> = HashMap::new();
+            let lo = (ti * chunk).min(frontier_ref.len());
+            let hi = ((ti + 1) * chunk).min(frontier_ref.len());
+            for (s, path) in &frontier_ref[lo..hi] {
+                for e in 0..ne {
+                    if !m.enabled(s, e) {
+                        continue;
+                    }
+                    let mut s2 = s.clone();
+                    trans += 1;
+                    match do_step(m, &mut w, &mut s2, e) {
+                        Ok(()) => {
+                            let k = fp128(&m.canon(&s2));
+                            if !seen_ref.contains(&k) && local_seen.insert(k) {
+                                let mut p2 = path.clone();
+                                p2.push(e as u16);
+                                out.push((k, s2, p2));
+                            }
+                        }
+                        Err(f) => {
+                            *fc.entry(f.key.clone()).or_insert(0) += 1;
+                            if fails.iter().filter(|x| x.1.key == f.key).count() < 3 {
+                                let mut p2: Vec<usize> = path.iter().map(|&x| x as usize).collect();
+                                p2.push(e);
+                                fails.push((p2, f));
+                            }
+                        }
+                    }
+                }
+                if t0.elapsed() > wall {
+                    break;
+                }
+            }
+            (out, trans, fails, fc)
+        });
+        let mut next: Vec<(M::S, Vec<u16>)> = Vec::new();
+        for (out, trans, fails, fc) in outs {
+            res.transitions += trans;
+            for (k, s2, p2) in out {
+                if seen.insert(k) {
+                    res.states += 1;
+                    if res.samples.len() < 2 && p2.len() >= 3 {
+                        res.samples.push((init, p2.iter().map(|&x| x as usize).collect()));
+                    }
+                    next.push((s2, p2));
+                }
+            }
+            for (p, f) in fails {
+                if res.fails.iter().filter(|x| x.2.key == f.key).count() < 3 {
+                    res.fails.push((init, p, f));
+                }
+            }
+            for (k, n) in fc {
+                *res.fail_counts.entry(k).or_insert(0) += n;
+            }
+        }
+        if seen.len() >= max_states || t0.elapsed() > wall {
+            res.cap_hit = true;
+            res.depth_reached = depth;
+            res.levels.push(next.len() as u64);
+            break;
+        }
+        res.depth_reached = depth + 1;
+        res.levels.push(next.len() as u64);
+        if next.is_empty() {
+            res.frontier_empty = true;
+            break;
+        }
+        frontier = next;
+    }
+    res.fails.sort_by_key(|f| f.1.len());
     res.wall_s = t0.elapsed().as_secs_f64();
     res
 }
@@ -750,4 +877,36 @@ pub fn hash_of<T: std::hash::Hash>(t: &T) -> u64 {
     let mut h = rustc_hash::FxHasher::default();
     t.hash(&mut h);
     h.finish()
+}
+
+/// Shared `--replay` implementation for engine-produced artefacts: find the
+/// model by exploration label and re-execute the recorded path.
+pub fn replay_json<M: Model>(models: &[(String, std::sync::Arc<M>)], v: &Value) -> Result<(), String> {
+    let label = v["exploration"].as_str().unwrap_or("");
+    let init = v["init"].as_u64().unwrap_or(0) as usize;
+    let path: Vec<usize> = v["path"]
+        .as_array()
+        .map(|a| a.iter().map(|x| x.as_u64().unwrap_or(0) as usize).collect())
+        .unwrap_or_default();
+    for (l, m) in models {
+        if label.starts_with(l.as_str()) {
+            let r1 = replay(&**m, init, &path);
+            let r2 = replay(&**m, init, &path);
+            let k1 = r1.as_ref().map(|x| (x.0, x.1.key.clone()));
+            let k2 = r2.as_ref().map(|x| (x.0, x.1.key.clone()));
+            if k1 != k2 {
+                return Err(format!("MACHINERY: two replays disagree ({k1:?} vs {k2:?})"));
+            }
+            return match r1 {
+                None => Ok(()),
+                Some((i, f)) => Err(format!(
+                    "step {i} ({}): [{}] {}",
+                    path.get(i).map(|e| m.event_name(*e)).unwrap_or_default(),
+                    f.key,
+                    f.msg
+                )),
+            };
+        }
+    }
+    Err(format!("unknown exploration label {label:?}"))
 }
